@@ -295,3 +295,31 @@ Print Assumptions C09_run_restart_semantics.
 Example C09_counter_aliasing : riar_update 3 [false; true; true] [0; 2; 5] = [1; 6; 5].
 Proof. exact counter_aliasing. Qed.
 Print Assumptions C09_counter_aliasing.
+
+(* (3f) whatever the aliasing between the per-step calls does, no step of the next block gets more than the
+   proposal of the step whose size is spread (with (3e): a rejected step is retried with a smaller step) *)
+Theorem C09_spread_all_le : forall T (N : num T) (le : T -> T -> Prop),
+  (forall a b, nltb N a b = true -> le a b) -> (forall a b, nltb N a b = false -> le b a) ->
+  forall c size flags dtnews times dts sf r d,
+  spread_from N c size flags dtnews = (sf, r) -> nth sf dtnews None = Some d ->
+  size <= length dts ->
+  forall i, i < size -> le (nth i (spread_update N c size flags dtnews times dts) (n0 N)) d.
+Proof. exact (@spread_all_le). Qed.
+Print Assumptions C09_spread_all_le.
+
+(* (1g) the steps of the next block are contiguous in time *)
+Theorem C09_block_times_contiguous : forall T (N : num T) size dts times i,
+  size <= length times -> 1 <= i -> i < size ->
+  nth i (times_update N size dts times) (n0 N) =
+  nadd N (nth (i - 1) (times_update N size dts times) (n0 N)) (nth (i - 1) dts (n0 N)).
+Proof. exact (@times_update_contiguous). Qed.
+Print Assumptions C09_block_times_contiguous.
+
+(* (2f) the other counters after a restart from slot j: the step that moves from slot j+k to slot k >= 1
+   carries its own counter plus one (only the step moving to slot 0 is reset to 1, see C09_counter_first_slot) *)
+Theorem C09_counter_shifted : forall size flags riars j k,
+  length flags = size -> size <= length riars ->
+  first_true flags = Some j -> 1 <= k -> j + k < size -> nth (j + k) flags false = true ->
+  nth k (riar_update size flags riars) 0 = nth (j + k) riars 0 + 1.
+Proof. exact (@riar_update_shifted). Qed.
+Print Assumptions C09_counter_shifted.
